@@ -11,12 +11,13 @@ MCNext ==
     \/ /\ reg[0].c # "none"
        /\ \E a \in 0 .. Len(reg[0].s) : \E n \in {0, 1, 2, 3, 4} :
              a + n <= Len(reg[0].s) /\
-             Checked(ToAmino([base |-> "reg", r |-> 0, path |-> <<[f |-> "r", a |-> a, b |-> a + n]>>]),
-                     LET cdn == SubSeq(reg[0].s, a + 1, a + n) IN
-                     IF n = 3
-                     THEN /\ out'.ok
-                          /\ Char("amino", out'.aa) = Genetic(cdn[1], cdn[2], cdn[3])
-                          /\ out'.aa = M_ToAmino(Pack(cdn, 2))                       \* the in-place 6-bit read
-                     ELSE out' = Panic)                                              \* never an amino acid
+             LET src == [base |-> "reg", r |-> 0, path |-> <<[f |-> "r", a |-> a, b |-> a + n]>>]
+                 cdn == SubSeq(reg[0].s, a + 1, a + n)
+             IN  Checked(ToAmino(src, IF n = 3 THEN ToAminoRes(src) ELSE Panic),
+                         IF n = 3
+                         THEN /\ out'.ok
+                              /\ Char("amino", out'.aa) = Genetic(cdn[1], cdn[2], cdn[3])
+                              /\ out'.aa = M_ToAmino(Pack(cdn, 2))                   \* the in-place 6-bit read
+                         ELSE "free" \in DOMAIN ToAminoRes(src))                     \* outside the property
 MCSpec == Init /\ [][MCNext]_vars
 =============================================================================
